@@ -77,11 +77,18 @@ func sweepOps(rt *rapid.T) []opProbe {
 	for k := 0; k <= 27; k++ {
 		pos := map[string]int{}
 		pick := func(label string, xs []string) string {
-			x := xs[pos[label]%len(xs)]
+			// pass after pass through the list, every pass rotated by a label-specific shift so
+			// that lists of equal length do not stay in lockstep
+			h := 0
+			for _, c := range label {
+				h = h*31 + int(c)
+			}
+			p := pos[label]
+			x := xs[(p+(p/len(xs))*(1+h%5))%len(xs)]
 			pos[label]++
 			return x
 		}
-		for it := 0; it < 20; it++ {
+		for it := 0; it < 48; it++ {
 			out = append(out, genOp(rt, k, pick)...)
 		}
 	}
@@ -155,7 +162,13 @@ func genOp(rt *rapid.T, k int, pick func(label string, xs []string) string) []op
 			ty := pick("divtype", []string{"int", "int8", "int16", "int32", "int64", "uint", "uint8", "uint16", "uint32", "uint64", "uintptr"})
 			d := pick("divisor", []string{"0", "0", "1", "3"})
 			op := pick("divop", []string{"use(int(a / b))", "use(int(a % b))", "a /= b; use(int(a))", "a %= b; use(int(a))", "use(int(" + ty + "(lg(1, 7)) / " + ty + "(lg(2, " + d + "))))"})
-			out = append(out, opProbe{fmt.Sprintf("div %s by %s: %s", ty, d, op), "a, b := " + ty + "(7), " + ty + "(" + d + "); _, _ = a, b", op})
+			// the dividend matters too: 0/0, the most negative value and -1 take other paths than 7/0
+			n := pick("dividend", []string{"7", "0", "1", "100", "0"})
+			if !strings.HasPrefix(ty, "u") {
+				n = pick("sdividend", []string{"7", "0", "-7", "-1", "0", "1"})
+			}
+			op = strings.Replace(op, "lg(1, 7)", "lg(1, "+n+")", 1)
+			out = append(out, opProbe{fmt.Sprintf("div %s(%s) by %s: %s", ty, n, d, op), "a, b := " + ty + "(" + n + "), " + ty + "(" + d + "); _, _ = a, b", op})
 		case 10, 11: // type assertions
 			decl := "var e interface{} = impl{3}; var n interface{}; var i I = impl{4}; var ni I; var es interface{} = \"s\"; _, _, _, _, _ = e, n, i, ni, es"
 			op := pick("assert", []string{"use(e.(int))", "use(e.(impl).x)", "use(e.(I).M())", "e.(J).N()", "use(n.(int))", "use(n.(I).M())", "use(i.(impl).x)", "i.(J).N()", "use(ni.(I).M())", "use(ni.(impl).x)", "sinkS = es.(string)", "use(es.(int))", "v, ok := e.(int); use(v); sinkB = ok", "v, ok := n.(I); sinkAny = v; sinkB = ok", "use(ni.M())", "sinkS = e.(interface{ String() string }).String()", "use(len(e.([]int)))", "use(e.(*impl).x)"})
